@@ -28,6 +28,7 @@ pub fn replay_line(req: &str) -> String {
         return "bad-op".to_string();
     }
     match w[1] {
+        "yearx" => crate::c_year::replay_line(req),
         "civil" if w.len() == 3 => {
             let z: i64 = match w[2].parse() { Ok(v) => v, Err(_) => return "bad-op".to_string() };
             match NaiveDate::from_num_days_from_ce_opt((z + epoch_days()) as i32) {
